@@ -73,8 +73,8 @@ CANDIDATES = {
     M.Account: ['Assets:New', 'Equity:X-1'],
     M.Currency: ['CAD', 'A.B-C'],
     M.Date: [datetime.date(2021, 2, 3), datetime.date(1999, 12, 31)],
-    M.NumberExpr: [D('7'), D('-1.5'), D('0.10')],
-    M.Number: [D('7'), D('0.10')],
+    M.NumberExpr: [D('7'), D('-1.5'), D('0.10'), D('0')],
+    M.Number: [D('7'), D('0.10'), D('0')],
     M.Bool: [True, False],
     M.InlineComment: ['note', '', '; x ;', STR_SYM],
     M.BlockComment: ['bc', 'two\nlines', 'a\n\nb', ';x', STR_SYM],
@@ -220,6 +220,7 @@ def make_generic(scaf_name, twin=False):
 COST_FORMS = ['{}', '{{}}', '{1}', '{{1}}', '{USD}', '{{USD}}', '{1 USD}', '{{1 USD}}', '{1 # 2 USD}', '{# 2 USD}', '{1 # USD}',
               '{2000-01-01, "l", *}', '{1 USD, 2000-01-01, "l"}', '{{1 USD, *}}', '{{1 # 2 USD}}', '{{# 2 USD}}', '{{1 # USD}}', '{ 1   USD , * }']
 COST_OPS = [('number_per', None), ('number_per', D('7')), ('number_total', None), ('number_total', D('8')), ('currency', None), ('currency', 'CAD'),
+            ('number_per', D('0')), ('number_total', D('0')),
             ('date', None), ('date', datetime.date(2021, 3, 4)), ('label', None), ('label', 'lb2'), ('merge', True), ('merge', False)]
 
 
@@ -350,14 +351,14 @@ Q, T = ('quick', 'thorough'), ('thorough',)
 for _s in SCAFS:
     _reg(make_generic(_s.name), {'C09': Q}, 900, 'generic', '%s: every value property x {None, in-domain alternatives, text with 1 symbolic code point}' % _s.name, cost=100)
 for _i in range(len(COST_FORMS)):
-    _reg(make_cost(_i, 3, 6), {'C09': Q, 'C19': Q}, 900, 'cost', 'cost form %s: 3 assignments to per/total/currency (None or value)' % COST_FORMS[_i], cost=60)
-    _reg(make_cost(_i, 2, 12), {'C09': Q}, 900, 'cost', 'cost form %s: 2 assignments to per/total/currency/date/label/merge' % COST_FORMS[_i], cost=60)
-    _reg(make_cost(_i, 4, 6), {'C09': T, 'C19': T}, 1800, 'cost', 'cost form %s: 4 assignments to per/total/currency' % COST_FORMS[_i])
-    _reg(make_cost(_i, 3, 12), {'C09': T}, 3000, 'cost', 'cost form %s: 3 assignments to per/total/currency/date/label/merge' % COST_FORMS[_i])
+    _reg(make_cost(_i, 3, 8), {'C09': Q, 'C19': Q}, 900, 'cost', 'cost form %s: 3 assignments to per/total/currency (None, value or zero)' % COST_FORMS[_i], cost=60)
+    _reg(make_cost(_i, 2, 14), {'C09': Q}, 900, 'cost', 'cost form %s: 2 assignments to per/total/currency/date/label/merge' % COST_FORMS[_i], cost=60)
+    _reg(make_cost(_i, 4, 8), {'C09': T, 'C19': T}, 1800, 'cost', 'cost form %s: 4 assignments to per/total/currency' % COST_FORMS[_i])
+    _reg(make_cost(_i, 3, 14), {'C09': T}, 3000, 'cost', 'cost form %s: 3 assignments to per/total/currency/date/label/merge' % COST_FORMS[_i])
 _reg(make_payee(3), {'C09': Q}, 900, 'payee', '5 initial forms x 3 assignments to payee/narration (None, text, empty)', cost=100)
 _reg(make_payee(4), {'C09': T}, 1800, 'payee', '5 initial forms x 4 assignments to payee/narration')
 _reg(make_generic('Transaction', twin=True), {'C09': Q}, 120, 'generic', 'vacuity twin', twin=True, cost=1)
-_reg(make_cost(2, 3, 6, twin=True), {'C09': Q, 'C19': Q}, 120, 'cost', 'vacuity twin', twin=True, cost=1)
+_reg(make_cost(2, 3, 8, twin=True), {'C09': Q, 'C19': Q}, 120, 'cost', 'vacuity twin', twin=True, cost=1)
 
 FILES = ['autobean_refactor/models/cost_spec.py', 'autobean_refactor/models/cost.py', 'autobean_refactor/models/transaction.py',
          'autobean_refactor/models/internal/value_properties.py', 'autobean_refactor/models/meta_value_internal.py',
